@@ -10,7 +10,7 @@ CONSTANTS
   DomOffset = 0
   Start = 1
   Steps = {1, 2, 3, 5}
-  MaxNow = 30
+  MaxNow = 26
   WithRead = TRUE
   GenDepth = 0
   ReqWeight = 1
